@@ -454,6 +454,19 @@ func (e *Exec) Describe() []string {
 	return out
 }
 
+// Await blocks the running thread until pred holds (a scheduling point that
+// is enabled only then). pred must depend on state that changes at other
+// threads' visible operations only.
+func Await(desc string, pred func() bool) {
+	e := E
+	if e == nil || e.aborting {
+		return
+	}
+	e.point("await:"+desc, pred)
+	e.cur.hist = mix(e.cur.hist, hashStr("await:"+desc))
+	e.epoch++
+}
+
 // PointKill is the scheduling point of Process.Kill.
 func PointKill() {
 	e := E
